@@ -57,6 +57,14 @@ func encChunk(k, v string, i int) []byte {
 	return append(b, c[:]...)
 }
 
+// partValue: the bytes of the spec's part value symbol: "p" = 2 chunks (cacheable), "b" = 4 chunks (oversized)
+func partValue(k, v string) []byte {
+	if v == "b" {
+		return encValue(k, "b", 4)
+	}
+	return encValue(k, v, 2)
+}
+
 func encValue(k, v string, n int) []byte {
 	out := make([]byte, 0, n*chunkBytes)
 	for i := 1; i <= n; i++ {
@@ -173,7 +181,8 @@ func buildStack(cfg stackCfg, dir string, wrap func(persistor.CachePersistor) pe
 	st := &stack{cache: c}
 	if cfg.Level == "part" {
 		st.inner = &innerStore{parts: map[string][]byte{}, gate: gate}
-		st.ps, err = partcache.New(c, st.inner, partcache.Options{})
+		// parts of more than 3 chunks are "oversized" for the cache part store (spec: PB = 4 chunks, PV = 2 chunks)
+		st.ps, err = partcache.New(c, st.inner, partcache.Options{MaxPartSizeBytes: 3 * chunkBytes})
 		if err != nil {
 			return nil, err
 		}
